@@ -231,13 +231,58 @@ def gen_mp(ctx):
     return out
 
 
+def gen_hist(ctx):
+    """histories of calls on one object (both tiers; small inputs): equal-size repeated calls, segmented kd_tree query"""
+    r = ctx.rng
+    projs = ["+proj=laea +lat_0=50 +lon_0=10 +ellps=WGS84", "+proj=merc +ellps=WGS84"]
+    out = []
+    for i in range(ctx.n(2, 8)):
+        out.append({"what": "kdtree_repeat", "ndata": r.choice([20, 40, 90]), "nx": r.choice([5, 17, 23, 40]), "k": [1, 3][i % 2],
+                    "repeat": 3, "nprocs": r.choice([2, 3]), "chunk": r.choice([None, None, 2]), "kind": KINDS[i % 3],
+                    "seed": r.randrange(1 << 30)})
+    for i in range(ctx.n(2, 6)):
+        out.append({"what": "proj_repeat", "proj": projs[i % 2], "n": r.choice([7, 12, 31]), "repeat": 3, "nprocs": r.choice([2, 3]),
+                    "chunk": r.choice([None, 5]), "kind": KINDS[(i + 1) % 3], "seed": r.randrange(1 << 30)})
+    for i in range(ctx.n(1, 4)):
+        out.append({"what": "neighbour_info", "shape": [9, 7] if i % 2 == 0 else [12, 5], "nsrc": 300, "k": [1, 3][i % 2], "nprocs": 2,
+                    "segments": 3, "seed": r.randrange(1 << 30)})
+    return out
+
+
+def run_hist(ctx):
+    cases = gen_hist(ctx)
+    o = ctx.impl("c15", {"hist": cases}, 600)
+    if "hist_unavailable" in o:
+        ctx.notes.append("multiprocessing unavailable in this sandbox, call histories not exercised: " + o["hist_unavailable"])
+        return
+    ran = 0
+    for c, r in zip(cases, o["hist"]):
+        ctx.count("history_" + c["what"])
+        if "error" in r and any(t in r["error"] for t in ("Permission", "OSError", "Errno", "BlockingIOError")):
+            ctx.notes.append("multi-process history skipped: " + r["error"])
+            continue
+        ran += 1
+        ctx.case(("hist", repr(c)), nontrivial=True, sample={"history_" + c["what"]: c, "impl": r})
+        if not r.get("ok"):
+            key = "C15.mp_equals_sp.repeated_call" if c["what"] != "neighbour_info" else "C15.mp_equals_sp.segments"
+            what = {"kdtree_repeat": "the same cKDTree_MP object queried %d times with %d points each (k=%d): call results equal to "
+                                     "scipy cKDTree.query = %s" % (c.get("repeat", 0), c.get("nx", 0), c.get("k", 0), r.get("calls", r)),
+                    "proj_repeat": "the same Proj_MP object called %d times with %d points each: call results equal to the "
+                                   "single-process projection = %s" % (c.get("repeat", 0), c.get("n", 0), r.get("calls", r)),
+                    "neighbour_info": "kd_tree.get_neighbour_info(nprocs=%d, segments=%d, neighbours=%d) on a %s target differs from "
+                                      "nprocs=1: %s" % (c.get("nprocs", 0), c.get("segments", 0), c.get("k", 0), c.get("shape"), r)}[c["what"]]
+            ctx.add_failure(key, what, {"oracle": "hist", "case": c})
+    ctx.notes.append("call histories on one object (real processes): %d histories, each call compared with the single-process result" % ran)
+
+
 def run(ctx):
     ctx.rule = ("real Scheduler.__iter__ generators executed under a deterministic controller, one atomic lock/read/write/"
                 "release/result-write action per turn: PRNG interleavings (n 0..40 at action granularity, n 41..400 and "
                 "C-integer boundary sizes 2^31-1 .. 2^33+1 at critical-section granularity; nprocs 1..4, workers 1..4, all three kinds, chunk "
                 "None/0/negative/1../n/n+1), exhaustive interleavings of enabled workers for small (n, workers) at action and "
                 "at critical-section granularity, malformed stream (negative n, nprocs 0, unknown kind); each execution is "
-                "replayed in the Coq model. Non-trivial = at least two slices handed out and at least two workers received one "
+                "replayed in the Coq model; plus call histories with real processes (same cKDTree_MP / Proj_MP object called 3 times "
+                "with equal sizes, kd_tree.get_neighbour_info with nprocs=2 and 3 segments) against the single-process results. Non-trivial = at least two slices handed out and at least two workers received one "
                 "(or, single worker, at least two slices); distinct = distinct (configuration, executed schedule)")
     import time
     t0 = time.time()
@@ -357,6 +402,11 @@ def run(ctx):
     if strict_bad:
         ctx.count("action_stream_differs", strict_bad)
 
+    # ---- histories of calls on one object, real processes (both tiers)
+    th = time.time()
+    run_hist(ctx)
+    print("C15 timing: call histories %.1fs" % (time.time() - th))
+
     # ---- real multi-process runs (thorough tier)
     mp_cases = gen_mp(ctx)
     if mp_cases:
@@ -386,6 +436,9 @@ def replay(ctx, data):
     if case.get("oracle") == "mp":
         o = ctx.impl("c15", {"mp": [case["case"]]})
         return "mp" in o and not o["mp"][0].get("ok")
+    if case.get("oracle") == "hist":
+        o = ctx.impl("c15", {"hist": [case["case"]]})
+        return "hist" in o and not o["hist"][0].get("ok")
     conf, nw = case["conf"], case["nw"]
     o = ctx.impl("c15", {"traces": [{"conf": conf, "nw": nw, "prefix": case["turns"]}]})
     res = o["traces"][0]
